@@ -143,7 +143,8 @@ fn part_b(out: &mut Partial) {
     w.run_calls(&[c], h);
     // scripted requesters: (ro flag, id, address)
     let mut reqs: Vec<(Option<i64>, Id20, SocketAddrV4)> = vec![];
-    for (i, ro) in [None, Some(0), Some(1)].into_iter().enumerate() {
+    // (a flag other than 0 is a set flag: the library reads "ro" like BEP5 reads implied_port)
+    for (i, ro) in [None, Some(0), Some(1), Some(2), Some(255), Some(i32::MAX as i64)].into_iter().enumerate() {
         for j in 0..2u8 {
             let mut id = [0x30 + i as u8 * 0x10 + j; 20];
             id[0] = if j == 0 { 0x22 } else { 0xA2 };
@@ -185,10 +186,11 @@ fn part_b(out: &mut Partial) {
         let (rt, srt) = tables_of(&w, n);
         for (ro, id, addr) in &reqs {
             let present = rt.iter().chain(srt.iter()).any(|(i, a)| i == id || a == addr);
-            if *ro == Some(1) && present {
-                out.violation(format!("ro-requester-in-table/{name}"), format!("a requester that flagged ro=1 is in the {name}'s routing tables ({addr})"), json!({"part": "b"}));
+            let flagged = ro.map(|r| r != 0).unwrap_or(false);
+            if flagged && present {
+                out.violation(format!("ro-requester-in-table/{name}"), format!("a requester that flagged ro={} is in the {name}'s routing tables ({addr})", ro.unwrap_or(0)), json!({"part": "b"}));
             }
-            if *ro != Some(1) && n == s0 && !rt.iter().any(|(i, _)| i == id) {
+            if !flagged && n == s0 && !rt.iter().any(|(i, _)| i == id) {
                 out.violation(
                     "first-node-ignores-requester".to_string(),
                     format!("the first node did not add a non-read-only find_node requester ({addr}, ro={ro:?})"),
@@ -220,7 +222,8 @@ fn part_c(kind: usize, ro_mask: u8, out: &mut Partial) {
     let mut net = EpNet::new(&mut w, &ids);
     for (i, e) in net.eps.iter_mut().enumerate() {
         if ro_mask & (1 << i) != 0 {
-            e.ro = Some(1);
+            // each flagged endpoint spells the flag differently
+            e.ro = Some([1, 2, 255][i % 3]);
         }
         match kind {
             1 => {
@@ -321,7 +324,7 @@ fn part_c_put(kind: usize, ro_mask: u8, out: &mut Partial) {
     let mut net = EpNet::new(&mut w, &ids);
     for (i, e) in net.eps.iter_mut().enumerate() {
         if ro_mask & (1 << i) != 0 {
-            e.ro_on_put_replies = Some(1);
+            e.ro_on_put_replies = Some([1, 2, 255][i % 3]);
         }
     }
     let boots = net.addrs();
